@@ -366,6 +366,48 @@ func runDemux(sc *streamScenario, rec *recorder) {
 	if sc.Run.API == "packed" {
 		runPacked(sc, rec)
 	}
+	if sc.Run.API == "longgap" {
+		// a PID that falls silent for more than half a million packets of another PID (about 100 MB) while its last unit waits for the end
+		// of the input, and a unit whose two packets lie that far apart: both are delivered (counted, not listed)
+		const between = 576000
+		var st []byte
+		add := func(pid int, cc int, pusi bool, payload []byte) {
+			b := make([]byte, 188)
+			b[0], b[1], b[2], b[3] = 0x47, byte(pid>>8), byte(pid), 0x10|byte(cc&15)
+			if pusi {
+				b[1] |= 0x40
+			}
+			for j := 4; j < 188; j++ {
+				b[j] = 0xff
+			}
+			copy(b[4:], payload)
+			st = append(st, b...)
+		}
+		hdr := []byte{0, 0, 1, 0xe0, 0, 0, 0x80, 0, 0}
+		add(0x100, 0, true, hdr)
+		add(0x100, 1, false, []byte{1, 2, 3})
+		add(0x102, 0, true, hdr)
+		for i := 0; i < between; i++ {
+			add(0x101, i, true, append(append([]byte(nil), hdr...), byte(i>>16), byte(i>>8), byte(i)))
+		}
+		add(0x102, 1, false, []byte{4, 5, 6})
+		cnt := map[int]int{}
+		errs, eof := 0, false
+		dmx := astits.NewDemuxer(context.Background(), bytes.NewReader(st), astits.DemuxerOptPacketSize(188))
+		for k := 0; k < between+20; k++ {
+			d, err := dmx.NextData()
+			if err == astits.ErrNoMorePackets {
+				eof = true
+				break
+			}
+			if err != nil {
+				errs++
+				continue
+			}
+			cnt[int(d.PID)]++
+		}
+		rec.ev(M{"ev": "longgap", "between": between, "n100": cnt[0x100], "n101": cnt[0x101], "n102": cnt[0x102], "errs": errs, "eof": eof})
+	}
 }
 
 // runPacked: two sections packed the way ISO/IEC 13818-1 2.4.4 allows: section A ends in the packet in which section B starts; that packet
